@@ -1,4 +1,5 @@
 import NasVerif.Proofs.UePolicyLemmas
+import NasVerif.Proofs.UePolicyApiLemmas
 /-!
 # C18 — UE policy container codec is total, round-trips, and codes PLMNs per TS 24.008
 
@@ -150,6 +151,154 @@ theorem unknown_type_err (h0 h1 : UInt8) (rest : Bytes) (m : Msg) (h : ¬ (1 ≤
     refine ⟨?_, ?_, ?_, ?_, ?_, ?_⟩ <;> (intro he; subst he; exact h (by decide))
   obtain ⟨a, b, c, d, e, f⟩ := hn
   simp [decodeMsg, encodeMsg, a, b, c, d, e, f]
+
+/-! ## built through the API (`Model/UePolicyApi.lean`: one definition per exported constructor / setter / appender) -/
+
+/-- one sublist built through the API: the script succeeds, the value is well formed, and its normal form (what decoding its
+encoding returns) is the expectation computed from the description alone -/
+theorem buildSubList_ok (d : SubListD) (h : ValidSubListD d) :
+    ∃ s, buildSubList d = .ok s ∧ WFSubList s ∧ normSubList s = expectSubList d := by
+  obtain ⟨h1, h2, h3, h4, hi, hl⟩ := h
+  obtain ⟨a, b, c, hs, ho, hn⟩ := setPlmnDigit_spec d.mcc d.mnc h1 h2 h3 h4
+  refine ⟨_, buildSubList_fields d a b c hs, ⟨?_, ?_, ?_⟩, ?_⟩
+  · intro i hi'
+    simp only [List.mem_map] at hi'
+    obtain ⟨x, hx, rfl⟩ := hi'
+    exact wf_buildInstr x (hi x hx)
+  · show 3 + ((d.instrs.map buildInstr).flatMap marshalInstr).length < 65536
+    rw [marshal_buildInstrs d.instrs hi]; exact hl
+  · show (plmnNumbers a b c).isSome = true
+    rw [hn]; rfl
+  · simp only [normSubList, expectSubList, hn, marshal_buildInstrs d.instrs hi, List.map_map, ← ho]
+    simp only [Option.getD_some, List.getD_cons_zero, List.getD_cons_succ]
+    congr 1
+    apply List.map_congr_left
+    intro x hx
+    exact norm_buildInstr x (hi x hx)
+
+theorem buildList_ok (ds : List SubListD) (hv : ∀ d ∈ ds, ValidSubListD d) (acc : List SubList) :
+    ∃ l, buildList ds acc = .ok (acc ++ l) ∧ (∀ s ∈ l, WFSubList s) ∧ l.map normSubList = ds.map expectSubList := by
+  induction ds generalizing acc with
+  | nil => exact ⟨[], by simp [buildList, pure], by simp, rfl⟩
+  | cons d r ih =>
+    obtain ⟨s, hs, hw, hn⟩ := buildSubList_ok d (hv d (by simp))
+    obtain ⟨l, hl, hwl, hnl⟩ := ih (fun x hx => hv x (by simp [hx])) (appendSubList acc s)
+    refine ⟨s :: l, ?_, ?_, ?_⟩
+    · simp only [appendSubList] at hl
+      simp only [buildList, hs, bind, Outcome.bind, appendSubList, hl]
+      simp
+    · intro x hx
+      rcases List.mem_cons.mp hx with rfl | hx
+      · exact hw
+      · exact hwl x hx
+    · simp [hn, hnl]
+
+/-- **a section-management list built through the API** (constructors, `SetLen`, `SetUpsc`, `SetPartType`, `SetPartContent`,
+`SetLen_byContent`, `SetPlmnDigit`, `Append…`) from any description whose numbers are a valid PLMN and whose nested bodies fit
+their 16-bit length fields: the script succeeds, and decoding the encoding of the result yields exactly the described
+structure with every length computed from content, the PLMN octets of TS 24.008 and the MCC / MNC that were set -/
+theorem api_list_roundtrip (ds : List SubListD) (hv : ∀ d ∈ ds, ValidSubListD d) :
+    ∃ l, buildList ds [] = .ok l ∧ unmarshalList (marshalList l) = .ok (ds.map expectSubList) := by
+  obtain ⟨l, hl, hw, hn⟩ := buildList_ok ds hv []
+  refine ⟨l, by simpa using hl, ?_⟩
+  rw [list_roundtrip l hw, hn]
+
+/-- a `SetPlmnDigit` outside the accepted range aborts the script with an error (nothing is encoded) -/
+theorem api_list_bad_plmn (d : SubListD) (ds : List SubListD) (acc : List SubList) (h : d.mcc < 99 ∨ d.mcc > 999 ∨ d.mnc < 9) :
+    ∃ e, buildList (d :: ds) acc = .err e := by
+  have : ∃ e, setPlmnDigit d.mcc d.mnc = .err e := by
+    unfold setPlmnDigit
+    by_cases h1 : d.mcc < 99 ∨ d.mcc > 999
+    · exact ⟨_, by rw [if_pos h1]⟩
+    · rw [if_neg h1]
+      have : d.mnc < 9 := by omega
+      exact ⟨_, by rw [if_pos this]⟩
+  obtain ⟨e, he⟩ := this
+  exact ⟨e, by simp [buildList, buildSubList_err d e he, bind, Outcome.bind]⟩
+
+
+theorem buildSubResult_ok (d : SubResultD) (h : ValidSubResultD d) :
+    ∃ s, buildSubResult d = .ok s ∧ WFSubResult s ∧ normSubResult s = expectSubResult d := by
+  obtain ⟨h1, h2, h3, h4, hl⟩ := h
+  obtain ⟨a, b, c, hs, ho, hn⟩ := setPlmnDigit_spec d.mcc d.mnc h1 h2 h3 h4
+  refine ⟨_, buildSubResult_fields d a b c hs, ⟨?_, ?_⟩, ?_⟩
+  · show 3 + ((d.results.map buildRes).flatMap marshalRes).length < 65536
+    rw [flatMap_marshalRes_len, List.length_map]; exact hl
+  · show (plmnNumbers a b c).isSome = true
+    rw [hn]; rfl
+  · simp only [normSubResult, expectSubResult, hn, flatMap_marshalRes_len, List.length_map, List.map_map, ← ho]
+    simp only [Option.getD_some, List.getD_cons_zero, List.getD_cons_succ]
+    rfl
+
+theorem buildResult_ok (ds : List SubResultD) (hv : ∀ d ∈ ds, ValidSubResultD d) (acc : List SubResult) :
+    ∃ l, buildResult ds acc = .ok (acc ++ l) ∧ (∀ s ∈ l, WFSubResult s) ∧ l.map normSubResult = ds.map expectSubResult := by
+  induction ds generalizing acc with
+  | nil => exact ⟨[], by simp [buildResult, pure], by simp, rfl⟩
+  | cons d r ih =>
+    obtain ⟨s, hs, hw, hn⟩ := buildSubResult_ok d (hv d (by simp))
+    obtain ⟨l, hl, hwl, hnl⟩ := ih (fun x hx => hv x (by simp [hx])) (appendSubResult acc s)
+    refine ⟨s :: l, ?_, ?_, ?_⟩
+    · simp only [appendSubResult] at hl
+      simp only [buildResult, hs, bind, Outcome.bind, appendSubResult, hl]
+      simp
+    · intro x hx
+      rcases List.mem_cons.mp hx with rfl | hx
+      · exact hw
+      · exact hwl x hx
+    · simp [hn, hnl]
+
+/-- **a section-management result built through the API** (`NewResult`, `SetUpsc`, `AppendResult`, `SetPlmnDigit`,
+`AppendSublist`): decoding its encoding yields the described structure, lengths from content, cause 0110 1111 -/
+theorem api_result_roundtrip (ds : List SubResultD) (hv : ∀ d ∈ ds, ValidSubResultD d) :
+    ∃ l, buildResult ds [] = .ok l ∧ unmarshalResult (marshalResult l) = .ok (ds.map expectSubResult) := by
+  obtain ⟨l, hl, hw, hn⟩ := buildResult_ok ds hv []
+  refine ⟨l, by simpa using hl, ?_⟩
+  rw [result_roundtrip l hw, hn]
+
+/-- **MANAGE UE POLICY COMMAND / REJECT / COMPLETE built through the API** decode to themselves, header included -/
+theorem api_command_roundtrip (pti iei : UInt8) (contents : Bytes) (cm : Option (UInt8 × UInt8)) (h : contents.length < 65536)
+    (hc : ∀ x, cm = some x → x.2 = 0 ∨ x.2 = 1) :
+    ∃ m, buildCommand pti iei contents cm = .ok (1, m) ∧ (encodeMsg 1 m >>= decodeMsg) = .ok (pti, 1, m) ∧
+      m = .command pti 1 iei (UInt16.ofNat contents.length) contents (cm.map fun x => ⟨x.1, 2, x.2, 0⟩) := by
+  cases cm with
+  | none =>
+    refine ⟨_, rfl, ?_, rfl⟩
+    exact command_roundtrip pti iei contents none h
+  | some x =>
+    obtain ⟨ci, n⟩ := x
+    rcases hc (ci, n) rfl with h0 | h1
+    · simp only at h0; subst h0
+      refine ⟨.command pti 1 iei (UInt16.ofNat contents.length) contents (some ⟨ci, 2, 0, 0⟩), rfl, ?_, rfl⟩
+      exact command_roundtrip pti iei contents _ h
+    · simp only at h1; subst h1
+      refine ⟨.command pti 1 iei (UInt16.ofNat contents.length) contents (some ⟨ci, 2, 1, 0⟩), rfl, ?_, rfl⟩
+      exact command_roundtrip pti iei contents _ h
+
+theorem api_reject_roundtrip (pti iei : UInt8) (contents : Bytes) (h : contents.length < 65536) :
+    (encodeMsg (buildReject pti iei contents).1 (buildReject pti iei contents).2 >>= decodeMsg) =
+      .ok (pti, 3, .reject pti 3 iei (UInt16.ofNat contents.length) contents) :=
+  reject_roundtrip pti iei contents h
+
+theorem api_complete_roundtrip (pti : UInt8) :
+    (encodeMsg (buildComplete pti).1 (buildComplete pti).2 >>= decodeMsg) = .ok (pti, 2, .complete pti 2) :=
+  complete_roundtrip pti
+
+/-- `SetNSSUI` accepts exactly 0 and 1 -/
+theorem setNSSUI_domain (c : Classmark) (v : UInt8) : (∃ c', c.setNSSUI v = .ok c' ∧ c'.nssui = v) ↔ (v = 0 ∨ v = 1) := by
+  unfold Classmark.setNSSUI
+  by_cases h0 : v = 0
+  · subst h0; simp [pure]
+  · by_cases h1 : v = 1
+    · subst h1; simp [pure]
+    · simp [h0, h1]
+
+/-! non-vacuity of the API theorems -/
+def dl1 : SubListD := ⟨0, 208, 93, [⟨0, 7, [⟨0, false, 1, [0xaa, 0xbb]⟩, ⟨9, true, 2, []⟩]⟩, ⟨0, 9, []⟩]⟩
+example : buildList [dl1] [] = .ok [⟨0, 0x02, 0xf8, 0x39, 208, 93, [⟨0, 7, [⟨0, 1, [0xaa, 0xbb]⟩, ⟨1, 2, []⟩]⟩, ⟨0, 9, []⟩]⟩] := by decide
+example : (buildList [dl1] []).bind (fun l => unmarshalList (marshalList l)) = .ok [expectSubList dl1] := by decide
+example : (buildResult [⟨0, 310, 260, [(5, 1)]⟩] []).bind (fun l => unmarshalResult (marshalResult l)) =
+    .ok [⟨8, 0x13, 0x00, 0x62, 310, 260, [⟨5, 1, 0x6f⟩]⟩] := by decide
+
 
 /-! ## non-vacuity -/
 
